@@ -59,9 +59,11 @@ pub fn all_spans(len: usize, with_done: bool) -> Vec<(usize, usize)> {
 /// The pool from which random alphabets are drawn: letters in both cases,
 /// the four bytes adjacent to the ASCII letter ranges, a digit, NUL, and
 /// high bytes including two that differ by 0x20 without being letters.
-pub const POOL: [u8; 18] = [
+pub const POOL: [u8; 23] = [
     b'a', b'b', b'c', b'A', b'B', b'z', b'Z', b'@', b'[', b'`', b'{', b'1',
     0x00, 0x80, 0xC1, 0xE1, 0xFF, b' ',
+    // both sides of the 0x7F/0x80 divide and the neighbours of the extremes
+    0x7F, b'~', 0x81, 0x01, 0xFE,
 ];
 
 #[derive(Clone, Debug)]
